@@ -4,6 +4,7 @@ import (
 	"context"
 	"encoding/json"
 	"fmt"
+	cid "github.com/ipfs/go-cid"
 	"math/rand"
 	"os"
 	"strings"
@@ -121,6 +122,11 @@ func malformed(class string, addr string, real []byte, head *entry.Entry, rng *r
 			return real
 		}
 		return real[:1+rng.Intn(len(real)-1)]
+	case "real-hash-alias":
+		// the real head announced under another CID of the same block: same digest, another codec or version
+		mhash := head.GetHash().Hash()
+		alias := []cid.Cid{cid.NewCidV1(cid.Raw, mhash), cid.NewCidV1(cid.DagProtobuf, mhash), cid.NewCidV1(cid.DagJSON, mhash), cid.NewCidV0(mhash)}[rng.Intn(4)]
+		return msg([]interface{}{with("hash", map[string]interface{}{"/": alias.String()})})
 	case "mutated-real":
 		b := append([]byte{}, real...)
 		for i := 0; i < 1+rng.Intn(4); i++ {
